@@ -732,6 +732,8 @@ HAND = [
     'void g(int n, int (*a)[n]); void g2(int n, int m, int a[n][m], int (*b)[m][n]); long d(int n, int (*a)[n]) { return sizeof *a; }\nlong h(void *q, int (*r)[3]) { g(3, q); g(3, r); g2(2, 3, q, q); return d(4, q) + d(3, r); }\n',
     # named parameters after unnamed ones are bound to their own temporaries
     'int second(int, int b) { return b; } long third(char, double, long c, float) { return c; } struct s { long a, b; }; long fourth(struct s, int, struct s d) { return d.b; }\n',
+    # lengths of variable length arrays of unsigned types narrower than 64 bits
+    'int f(unsigned n, unsigned short r, unsigned char w, _Bool b) { int a[n]; char c[r][w]; long d[w]; short e[b + 1u]; return sizeof a + sizeof c + sizeof d + sizeof e; }\n',
     # the size operand of alloca has class l whatever the type of the argument
     'void *f(unsigned n, unsigned short h, _Bool b, unsigned char c, int i, long l) { char *p = __builtin_alloca(n); p += (long)__builtin_alloca(h) + (long)__builtin_alloca(b) + (long)__builtin_alloca(c) + (long)__builtin_alloca(i) + (long)__builtin_alloca(l) + (long)__builtin_alloca(n + h); return p; }\n',
     # variable length arrays whose elements have size zero (GNU zero-length arrays): every operand present
